@@ -87,6 +87,12 @@ func newLexer(env *ExecEnv, r io.RuneScanner) *lexer {
 }
 
 func (l *lexer) Lex(lval *yySymType) int {
+	select {
+	case <-l.cancel:
+		// an error has been reported
+		return 0
+	default:
+	}
 	vpoint(l, vRecv)
 	switch tok := (<-l.token).(type) {
 	case token:
@@ -336,7 +342,7 @@ func (l *lexer) lexOp() action {
 			}
 		}
 	default:
-		l.Error(fmt.Sprintf("unexpected %q", r))
+		l.error(fmt.Sprintf("unexpected %q", r))
 		return nil
 	}
 	l.emit(op)
@@ -354,6 +360,12 @@ func (l *lexer) emit(typ int) {
 		l.b.Reset()
 	default:
 		tok = typ
+	}
+	select {
+	case <-l.cancel:
+		// bailout
+		panic(errBailout)
+	default:
 	}
 	vsend(l)
 	select {
@@ -387,6 +399,16 @@ func (l *lexer) set(name, value string) {
 }
 
 func (l *lexer) Error(s string) {
+	l.report(s, true)
+}
+
+func (l *lexer) error(s string) {
+	l.report(s, false)
+}
+
+// report records an error. The lexer runs ahead of the parser, so an
+// error of the parser replaces one of the lexer, but not vice versa.
+func (l *lexer) report(s string, parser bool) {
 	vpoint(l, vErr)
 	l.mu.Lock()
 	defer l.mu.Unlock()
@@ -400,7 +422,9 @@ func (l *lexer) Error(s string) {
 	case strings.HasPrefix(s, "runtime error: "):
 		s = s[15:]
 	}
-	l.err = ArithExprError{Msg: s}
+	if parser || l.err == nil {
+		l.err = ArithExprError{Msg: s}
+	}
 
 	select {
 	case <-l.cancel:
